@@ -44,6 +44,21 @@ CONVEX = """<mujoco><option timestep="0.004" {opt}/><worldbody><geom type="plane
   <body pos="-0.04 -0.03 {z2}"><freejoint/><geom type="cylinder" size="{c}"/></body></worldbody></mujoco>"""
 
 
+IMPL = """<mujoco><option timestep="0.004" integrator="implicit"/><worldbody>
+  <body pos="0 0 1">{j}<geom type="box" size=".1 .07 .05" pos="0.03 0.02 0.01" contype="0" conaffinity="0"/></body></worldbody></mujoco>"""
+
+
+def _spin_states(mjm, nworld):
+  import mujoco
+
+  out = []
+  for w in range(nworld):
+    d = mujoco.MjData(mjm)
+    d.qvel[:] = [0.5, -0.3, 0.2, 2.0 + w, -1.5, 1.0][: mjm.nv]
+    out.append(d)
+  return out
+
+
 def _default_states(mjm, nworld):
   import mujoco
 
@@ -72,6 +87,9 @@ ITEMS = {
   "prims": dict(xml=lambda: PRIMS, states=_default_states),
   # same geom kinds and pair-type counts, different sizes/poses and a different convex-solver iteration budget
   "convex": dict(xml=lambda: CONVEX.format(opt="", b=".2 .2 .1", e=".06 .08 .05", c=".05 .04", z1="0.245", z2="0.237"), states=_default_states),
+  # same (nworld, nbody, nv), one with a free joint and one without, implicit integrator (derivative scratch buffers keyed by shape)
+  "impl_free": dict(xml=lambda: IMPL.format(j='<freejoint/>'), states=_spin_states),
+  "impl_6dof": dict(xml=lambda: IMPL.format(j='<joint type="hinge" axis="1 0 0"/><joint type="hinge" axis="0 1 0"/><joint type="hinge" axis="0 0 1"/><joint type="slide" axis="1 0 0"/><joint type="slide" axis="0 1 0"/><joint type="slide" axis="0 0 1"/>'), states=_spin_states),
   "convex_ccd4": dict(xml=lambda: CONVEX.format(opt='ccd_iterations="4"', b=".25 .15 .1", e=".07 .05 .06", c=".04 .05", z1="0.255", z2="0.247"), states=_default_states),
 }
 for _it in ITEMS.values():
@@ -99,6 +117,8 @@ def scenarios(tier, seed):
 
   out = []
   if tier == "quick":
+    for h in (["impl_free"], ["impl_6dof"], ["impl_6dof", "impl_free"], ["impl_free", "impl_6dof"]):
+      out.append(dict(history=h))
     for target in QUICK_NAMES:
       for n in range(0, 2):
         for prefix in itertools.product(QUICK_NAMES, repeat=n):
